@@ -2036,9 +2036,7 @@ func marshalTuple(info TypeInfo, value interface{}) ([]byte, error) {
 				return nil, err
 			}
 
-			n := len(data)
-			buf = appendInt(buf, int32(n))
-			buf = append(buf, data...)
+			buf = appendBytes(buf, data)
 		}
 
 		return buf, nil
@@ -2068,9 +2066,7 @@ func marshalTuple(info TypeInfo, value interface{}) ([]byte, error) {
 				return nil, err
 			}
 
-			n := len(data)
-			buf = appendInt(buf, int32(n))
-			buf = append(buf, data...)
+			buf = appendBytes(buf, data)
 		}
 
 		return buf, nil
@@ -2094,9 +2090,7 @@ func marshalTuple(info TypeInfo, value interface{}) ([]byte, error) {
 				return nil, err
 			}
 
-			n := len(data)
-			buf = appendInt(buf, int32(n))
-			buf = append(buf, data...)
+			buf = appendBytes(buf, data)
 		}
 
 		return buf, nil
